@@ -118,6 +118,7 @@ func (c14) genObj(c *fw.Ctx, j int) codecObj {
 				g.TakeFrom(junk) // the destination is REUSED: it already holds another header
 			}
 			rest, err := g.TakeFrom(src)
+			defer scribble(src, rest, err)()
 			if err != nil {
 				return rest, err, ""
 			}
@@ -187,6 +188,7 @@ func (c14) genObj(c *fw.Ctx, j int) codecObj {
 		return codecObj{kind: "timeseries", enc: enc, app: ts.AppendTo, payload: n, dec: func(src []byte) ([]byte, error, string) {
 			g := *wt.NewTimeSeries(1000, 1030, 10, []wt.Value{1, 2, 3}) // reused destination holding an older series
 			rest, err := g.TakeFrom(src)
+			defer scribble(src, rest, err)()
 			if err != nil {
 				return rest, err, ""
 			}
@@ -216,6 +218,7 @@ func (c14) genObj(c *fw.Ctx, j int) codecObj {
 		return codecObj{kind: "points", enc: enc, app: pts.AppendTo, payload: n, dec: func(src []byte) ([]byte, error, string) {
 			g := wt.Points{{Time: 1, Value: 2}, {Time: 3, Value: 4}} // reused destination holding an older list
 			rest, err := g.TakeFrom(src)
+			defer scribble(src, rest, err)()
 			if err != nil {
 				return rest, err, ""
 			}
@@ -234,6 +237,7 @@ func (c14) genObj(c *fw.Ctx, j int) codecObj {
 		return codecObj{kind: "point", enc: p.AppendTo(nil), app: p.AppendTo, payload: 1, dec: func(src []byte) ([]byte, error, string) {
 			var g wt.Point
 			rest, err := g.TakeFrom(src)
+			defer scribble(src, rest, err)()
 			if err == nil && (g.Time != p.Time || valueBits(g.Value) != valueBits(p.Value)) {
 				return rest, nil, "point differs"
 			}
@@ -247,6 +251,7 @@ func (c14) genObj(c *fw.Ctx, j int) codecObj {
 		return codecObj{kind: "value", enc: v.AppendTo(nil), app: v.AppendTo, payload: 1, dec: func(src []byte) ([]byte, error, string) {
 			var g wt.Value
 			rest, err := g.TakeFrom(src)
+			defer scribble(src, rest, err)()
 			if err == nil && valueBits(g) != valueBits(v) {
 				return rest, nil, fmt.Sprintf("value bits %x != %x", valueBits(g), valueBits(v))
 			}
@@ -258,6 +263,7 @@ func (c14) genObj(c *fw.Ctx, j int) codecObj {
 			return codecObj{kind: "timestamp", enc: t.AppendTo(nil), app: t.AppendTo, payload: 1, dec: func(src []byte) ([]byte, error, string) {
 				var g wt.Timestamp
 				rest, err := g.TakeFrom(src)
+				defer scribble(src, rest, err)()
 				if err == nil && g != t {
 					return rest, nil, "timestamp differs"
 				}
@@ -279,6 +285,7 @@ func (c14) genObj(c *fw.Ctx, j int) codecObj {
 		return codecObj{kind: "duration", enc: d.AppendTo(nil), app: d.AppendTo, payload: 1, dec: func(src []byte) ([]byte, error, string) {
 			var g wt.Duration
 			rest, err := g.TakeFrom(src)
+			defer scribble(src, rest, err)()
 			if err == nil && g != d {
 				return rest, nil, "duration differs"
 			}
@@ -290,6 +297,7 @@ func (c14) genObj(c *fw.Ctx, j int) codecObj {
 		return codecObj{kind: "archiveinfo", enc: enc, app: a.AppendTo, payload: 1, dec: func(src []byte) ([]byte, error, string) {
 			var g wt.ArchiveInfo
 			rest, err := g.TakeFrom(src)
+			defer scribble(src, rest, err)()
 			if err == nil && (!g.Equal(a) || !bytes.Equal(g.AppendTo(nil), enc)) {
 				return rest, nil, "archive info differs"
 			}
@@ -463,6 +471,24 @@ func c14CheckObj(c *fw.Ctx, r *rand.Rand, o codecObj) {
 		c.Count("retry_loops", int64(rounds))
 		if c.Violated() {
 			return
+		}
+	}
+}
+
+// scribble inverts the bytes a successful decode consumed, for as long as the decoded object is being compared with the
+// original (the returned function restores them): a decoded object is a value of its own, it must not keep looking at
+// the caller's buffer, which the caller is free to reuse for the next message.
+func scribble(src, rest []byte, err error) func() {
+	if err != nil || len(rest) > len(src) {
+		return func() {}
+	}
+	n := len(src) - len(rest)
+	for i := 0; i < n; i++ {
+		src[i] ^= 0xFF
+	}
+	return func() {
+		for i := 0; i < n; i++ {
+			src[i] ^= 0xFF
 		}
 	}
 }
